@@ -49,6 +49,36 @@ fn c08_sassnumber_add_sub() {
     kani::cover!(ia == IDX_NONE && ib != IDX_NONE);
 }
 
+//@ ob: id=C08/K/sassnumber_add_sub_more_magnitudes kind=K-contract tier=thorough fns=SassNumber::add,SassNumber::sub,Number::convert also=C01
+//@ desc: the add/sub contract (see sassnumber_add_sub) for negative, fractional and zero magnitudes
+#[kani::proof]
+#[kani::unwind(1)]
+#[kani::stub(crate::value::number::Number::convert, convert_contract)]
+fn c08_sassnumber_add_sub_more_magnitudes() {
+    let (ia, a) = any_simple_unit();
+    let (ib, b) = any_simple_unit();
+    kani::assume(a.comparable(&b));
+    let sel: u8 = kani::any();
+    kani::assume(sel < 3);
+    let (l, r) = match sel {
+        0 => (-7.5, 0.25),
+        1 => (0.0, -96.0),
+        _ => (1e9, 1e-3),
+    };
+    let f = convert_factor_spec(&b, &a).unwrap();
+    let want_unit = expected_unit(ia, ib, &a, &b);
+    if kani::any() {
+        let out = sn(l, a.clone()) + sn(r, b.clone());
+        assert!(out.unit == want_unit, "C08/K/sassnumber_add_sub_more_magnitudes: unit of sum");
+        assert!(out.num.0 == l + r * f, "C08/K/sassnumber_add_sub_more_magnitudes: magnitude of sum");
+    } else {
+        let out = sn(l, a.clone()) - sn(r, b.clone());
+        assert!(out.unit == want_unit, "C08/K/sassnumber_add_sub_more_magnitudes: unit of difference");
+        assert!(out.num.0 == l - r * f, "C08/K/sassnumber_add_sub_more_magnitudes: magnitude of difference");
+    }
+    kani::cover!(ia != ib && ia != IDX_NONE && ib != IDX_NONE);
+}
+
 //@ ob: id=C08/K/sassnumber_eq kind=K-contract fns=SassNumber::eq,SassNumber::has_compatible_units,SassNumber::has_comparable_units,Number::convert also=C01,C09
 //@ desc: SassNumber == never violates Number::convert.requires for any pair of simple units; incomparable units are unequal; unitless equals only unitless; equal magnitudes of convertible units compare after conversion; has_compatible_units is comparable() with None compatible only with None
 #[kani::proof]
